@@ -22,8 +22,16 @@ observation of a transaction is
   after a rollback (pseudo veto @ctx), and Db.Batch calls issued together with failing Db.Batch calls that bbolt
   coalesces, so that the innocent function is rolled back and re-run with its context (pseudo veto @cobatch): the
   committed transaction still announces every change once; wirings with three child stores under one parent;
+* third strengthening (seeded C08-w3-3): contexts built AROUND an existing bbolt transaction with NewTxMutateContext - (1) pseudo veto
+  @rawtx: the CALLER opens the write transaction on the bbolt database (Begin(true) .. Commit / Rollback, bolt.Update, bolt.Batch), wraps it,
+  runs the hook program with that context (registrations also through ctx.GetSystemContext(); nested Db.Update / Db.Batch join) and commits
+  or rolls back; (2) program letter x..): part of the function's work is done with a SECOND context built around ctx.Tx().  Rule
+  (Properties/C08.v shared_hooks_exactly_once, caller_tx_hooks): entity events as for every committed transaction, every commit action
+  of every such context exactly once after the commit and never after a rollback, their pre-commit actions never (only the Db.Update /
+  Db.Batch that OPENS a transaction runs those of the context it was called with), tx-complete listeners only for transactions
+  Db.Update / Db.Batch opened;
 * correspondence: the same line is printed by the extracted machine (Store/Events.v run_tx_v,
-  delivered_to; Store/TxHooks.v db_update for the program) and compared token by token (results, events, deliveries incl. state digests, hooks).
+  delivered_to; Store/TxShared.v shared_update - an extension of Store/TxHooks.v db_update - for the program) and compared token by token (results, events, deliveries incl. state digests, hooks).
 """
 import json
 import os
@@ -33,7 +41,7 @@ import storefam
 import vlib
 
 PID = "C08"
-FILES = ["theories/Properties/C08.v", "theories/Examples/C08Examples.v", "theories/Examples/C08Wirings.v"]
+FILES = ["theories/Properties/C08.v", "theories/Examples/C08Examples.v", "theories/Examples/C08Wirings.v", "theories/Examples/C08Shared.v"]
 
 FILTER_STYLES = ["ts", "ta", "fs", "fa", "us", "ua", "is", "ia"]
 STATE_STYLES = ("ts", "ta", "fs", "fa", "us", "ua", "c", "uc")
@@ -129,6 +137,9 @@ def ctx_note(txs_parsed, io, k):
             return (" [the transaction ran with the MutateContext the caller keeps for all its transactions; transaction %d ran with it, "
                     "performed store changes and was rolled back]" % rolled[-1])
         return " [the transaction ran with the MutateContext the caller keeps for all its transactions (used by %d earlier ones)]" % len(prior)
+    raw = raw_spec(tx)
+    if raw:
+        return " [%s]" % raw_text(raw)
     co = pseudo(tx, "@cobatch")
     if co is not None:
         try:
@@ -145,37 +156,66 @@ def default_prog(tx):
     return "|cp" + ("f" if tx["pcf"] else "") + "." * len(tx["ops"]) + "c"
 
 
-def prog_info(prog, mode):
-    """-> dict(commits {label: where}, pres {label: where}, nested, depth)"""
+RAW_OPENER = dict(b="tx := bolt.Begin(true) .. tx.Commit() / tx.Rollback()", u="bolt.Update(func(tx) ..)", t="bolt.Batch(func(tx) ..)")
+
+
+def raw_spec(tx):
+    """how the caller manages the transaction itself (pseudo veto @rawtx), None for a transaction Db.Update / Db.Batch opens"""
+    spec = pseudo(tx, "@rawtx")
+    if spec is None:
+        return None
+    try:
+        return bytes.fromhex(spec).decode() or "b"
+    except ValueError:
+        return "b"
+
+
+def raw_text(raw):
+    return "a transaction the caller manages itself (%s) wrapped with NewTxMutateContext(ctx, tx)%s" % (
+        RAW_OPENER.get(raw[0], raw[0]), ", registrations made through ctx.GetSystemContext()" if "w" in raw else "")
+
+
+def prog_info(prog, mode, raw=None):
+    """-> dict(commits {label: where}, pres {label: where} (somebody runs them), dead {label: where} (pre-commit actions
+    registered on a context built AROUND an existing transaction: nobody runs them), nested, depth, second)"""
     call = "Db.Batch" if mode == "bat" else "Db.Update"
     start = prog.find("|")
-    commits, pres = {}, {}
+    commits, pres, dead = {}, {}, {}
     nc = np_ = 0
     stack = []
-    nested = depth = 0
+    nested = depth = second = 0
     for i, ch in enumerate(prog):
-        if i < start:
+        if raw and not stack:
+            where = "on the context NewTxMutateContext(ctx, tx) built around the caller's own transaction (%s)" % RAW_OPENER.get(raw[0], raw[0])
+        elif i < start:
             where = "on the context before %s opened the transaction" % call
+        elif stack and stack[-1] == "x":
+            where = "on a second context NewTxMutateContext(ctx.Context(), ctx.Tx()) built inside the function around the running transaction"
         elif stack:
-            where = "inside a nested %s(ctx, ..) joining the running transaction (depth %d)" % (
-                "Db.Batch" if stack[-1] == "b" else "Db.Update", len(stack))
+            where = "inside a nested %s(ctx, ..) joining the running transaction (depth %d)%s" % (
+                "Db.Batch" if stack[-1] == "b" else "Db.Update", len(stack),
+                ", called with a second context built around the running transaction" if "x" in stack else "")
         else:
             where = "inside the function passed to %s" % call
+        unrun = bool(raw) or "x" in stack
         if ch == "c":
             commits["c%d" % nc] = "registered " + where
             nc += 1
         elif ch in "pfq":
-            pres["p%d" % np_] = "registered " + where
-            if ch == "q":
+            (dead if unrun else pres)["p%d" % np_] = "registered " + where
+            if ch == "q" and not unrun:
                 commits["q%d" % np_] = "added by pre-commit action p%d (registered %s)" % (np_, where)
             np_ += 1
-        elif ch in "ub" and i > start:
+        elif ch in "ubx" and i > start:
             stack.append(ch)
-            nested += 1
+            if ch == "x":
+                second += 1
+            else:
+                nested += 1
             depth = max(depth, len(stack))
         elif ch == ")" and stack:
             stack.pop()
-    return dict(commits=commits, pres=pres, nested=nested, depth=depth)
+    return dict(commits=commits, pres=pres, dead=dead, nested=nested, depth=depth, second=second)
 
 
 def hook_counts(other, tag):
@@ -187,14 +227,21 @@ def hook_counts(other, tag):
     return out
 
 
-def hook_oracle(mode, prog, a):
+def hook_oracle(mode, prog, a, raw=None):
     """commit actions, pre-commit actions, tx-complete listeners of one observed transaction against the
-    property: each registration exactly once per committed transaction, nothing for a rolled-back one"""
+    property: each registration exactly once per committed transaction, nothing for a rolled-back one.
+    [raw]: the caller manages the bbolt transaction itself and wrapped it with NewTxMutateContext (Properties/C08.v
+    shared_hooks_exactly_once, caller_tx_hooks): commit actions once after the caller's commit, none after its rollback;
+    nobody runs pre-commit actions there, the tx-complete listeners of the DbImpl are not involved"""
     out = []
-    info = prog_info(prog, mode)
+    info = prog_info(prog, mode, raw)
     ca, pa = hook_counts(a["other"], "CA"), hook_counts(a["other"], "PA")
     tc = sum(int(t[3:]) for t in a["other"] if t.startswith("TC:"))
     shape = "program %s: %d nested Db.Update/Db.Batch calls, depth %d" % (prog, info["nested"], info["depth"])
+    if info["second"]:
+        shape += ", %d blocks executed with a second context built around the running transaction" % info["second"]
+    if raw:
+        shape += "; " + raw_text(raw)
     if not a["commit"]:
         if any(ca.values()) or tc:
             out.append(("C08:commit-hook-after-rollback", "commit actions %s / tx-complete listeners (%d) ran for a rolled-back transaction (%s)" % (
@@ -212,9 +259,18 @@ def hook_oracle(mode, prog, a):
     bad = [(l, pa.get(l, 0)) for l in sorted(set(info["pres"]) | set(pa)) if pa.get(l, 0) != (1 if l in info["pres"] else 0)]
     if bad:
         l, n = bad[0]
-        out.append(("C08:precommit-action-count", "pre-commit action %s (%s) ran %d times in the committed transaction, expected exactly once; all: %s (%s)" % (
-            l, info["pres"].get(l, "never registered"), n, bad[:6], shape)))
-    if tc != 1:
+        if l in info["dead"]:
+            out.append(("C08:precommit-action-count", "pre-commit action %s (%s) ran %d times: runPreCommitActions belongs to the Db.Update / Db.Batch call that "
+                        "opens a transaction and to the context it was called with - a context built around an existing transaction has nobody to run "
+                        "them (pinned contract, Store/TxShared.v dead_pres); all: %s (%s)" % (l, info["dead"][l], n, bad[:6], shape)))
+        else:
+            out.append(("C08:precommit-action-count", "pre-commit action %s (%s) ran %d times in the committed transaction, expected exactly once; all: %s (%s)" % (
+                l, info["pres"].get(l, "never registered"), n, bad[:6], shape)))
+    if raw:
+        if tc != 0:
+            out.append(("C08:tx-complete-count", "tx-complete listener ran %d times for a transaction neither Db.Update nor Db.Batch opened (they register it "
+                        "when they open one; calls that join a running transaction must not) (%s)" % (tc, shape)))
+    elif tc != 1:
         key = "C08:batch-no-txcomplete" if (mode == "bat" and tc == 0) else "C08:tx-complete-count"
         out.append((key, "tx-complete listener ran %d times for one transaction committed through %s (%s)" % (
             tc, "Db.Batch" if mode == "bat" else "Db.Update", shape)))
@@ -329,6 +385,7 @@ def oracle(sch, mode, progs, regs, txs, io):
         lm = [t for t in a["other"] if t.startswith("LM:")]
         ls = [t for t in a["other"] if t.startswith("LS:")] + (lm if not a["commit"] else [])
         note = ctx_note(parsed, io, k)
+        raw = raw_spec(tx)
         late = [t for t in a["other"] if t.startswith("LATE:")]
         if "ASYNC-TIMEOUT" in a["other"]:
             out.append(("C08:async-timeout", "asynchronous listeners / commit actions did not arrive within 10 s", k))
@@ -337,10 +394,10 @@ def oracle(sch, mode, progs, regs, txs, io):
         if not a["commit"]:
             if a["events"] or ls:
                 out.append(("C08:events-after-rollback", "listeners ran for a rolled-back transaction: %s%s" % ((a["events"] + ls)[:4], note), k))
-            out += [(key, desc, k) for key, desc in hook_oracle(mode, prog, a)]
+            out += [(key, desc, k) for key, desc in hook_oracle(mode, prog, a, raw)]
             prev = post
             continue
-        out += [(key, desc, k) for key, desc in hook_oracle(mode, prog, a)]
+        out += [(key, desc, k) for key, desc in hook_oracle(mode, prog, a, raw)]
         exp = expected_events(sch, tx, prev, post)
         got = Counter()
         for e in a["events"]:
@@ -485,6 +542,10 @@ def main(argv):
                      "a MutateContext the caller keeps across transactions (also after a rollback) carries no commit / pre-commit actions: they stay "
                      "registered on the context, so every later transaction would run them again; a function bbolt's Batch may run twice registers "
                      "its actions before the call, not inside the function (bbolt: the function must be idempotent)",
+                     "pre-commit actions registered on a context built around an existing transaction (NewTxMutateContext: a caller-managed transaction, "
+                     "a second context around ctx.Tx()) are never run: runPreCommitActions is unexported and called only by the Db.Update / Db.Batch that opens "
+                     "a transaction, for the context it was called with; tx-complete listeners belong to the DbImpl call that opens a transaction "
+                     "(pinned contract, modelled in Store/TxShared.v: live_pres / dead_pres / tc_runs)",
                      "a listener registration names every change kind at most once (EntityCreated together with EntityCreatedAsync asks for two "
                      "notifications per create and is outside 'registered for that change type')",
                      "cascade deletes follow an acyclic store order (wf_events_b); a cascade cycle does not terminate (C04)",
@@ -493,10 +554,10 @@ def main(argv):
     proof_ok = c.proof_step(FILES)
     c.cov["trusted_base"] = [
         "Coq 8.16.1 kernel (coqc; coqchk in the thorough tier); vm_compute in Examples only; no axioms",
-        "hand-written store machine coq/theories/Store/Model.v and its event layer Store/Events.v",
+        "hand-written store machine coq/theories/Store/Model.v, its event layer Store/Events.v and the hook layers Store/TxHooks.v / Store/TxShared.v",
         "bbolt Tx.OnCommit / rollback; the Go scheduler for asynchronous listeners (awaited, cap 10 s)",
         "extraction (ExtrOcamlBasic only) + extraction/c08_driver.ml + drv_common.ml",
-        "Go harness store.go / store_c08.go / store_c08_gen.go and the oracle in checks/c08.py",
+        "Go harness store.go / store_c08.go / store_c08_gen.go / store_c08_w2.go / store_c08_w3.go and the oracle in checks/c08.py",
     ]
     model = vlib.build_model("C08")
     harness, err = vlib.build_harness()
@@ -594,7 +655,12 @@ def main(argv):
                      "sync/async, typed and untyped constraint), 1 tx-complete listener; per transaction a hook program: commit actions and pre-commit "
                      "actions (succeeding, failing, adding a commit action) registered on the context before Db.Update/Db.Batch is called (75% / 65%), at the "
                      "start and the end of the function (always) and inside 0-3 nested db.Update(ctx,..)/db.Batch(ctx,..) calls joining the running "
-                     "transaction (depth <= 3, possibly without operations), each registration counted on its own; asynchronous deliveries "
+                     "transaction (depth <= 3, possibly without operations), each registration counted on its own; 14% of the Db.Update and 10% of the "
+                     "Db.Batch histories run 65% of their transactions (4% elsewhere) as CALLER-MANAGED bbolt transactions (Begin/Commit/Rollback, bolt.Update, "
+                     "bolt.Batch) wrapped with NewTxMutateContext, 25% of them registering through ctx.GetSystemContext(), 12% given up by the caller after "
+                     "their changes, with commit actions / pre-commit actions (never run there) right after the constructor, between the operations and "
+                     "inside joined Db.Update / Db.Batch calls; 22-25% of all programs do part of their work (0..all operations, registrations, nested "
+                     "calls) with a SECOND context NewTxMutateContext(ctx.Context(), ctx.Tx()); asynchronous deliveries "
                      "awaited. Non-trivial: a history with a committed transaction that delivered more than one event; distinct by case text.")
     ks = sorted(set((0, len(cases) // 2, max(0, len(cases) - 1))))
     c.cov["samples"] = [dict(case=cases[k][:1200], impl=impl[k][:1200], model=modl[k][:1200]) for k in ks if k < len(cases)]
